@@ -101,6 +101,8 @@ type interpreter struct {
 	depth   int
 	locks    map[*value]*lockState
 	onceDone map[*value]bool
+	mapRev   bool // iterate Go maps in reverse insertion order (vf.MapOrder)
+	pools    map[*value][]value // sync.Pool free lists (per path)
 	hooks    map[string]value // harness-registered callbacks (vf.OnPoll etc.)
 	curFr      *frame
 	envPool    map[*ssa.Function][][]value
